@@ -14,6 +14,11 @@ ALLOWED_AXIOMS = {"propext", "Classical.choice", "Quot.sound"}
 
 SAN = ["-fsanitize=address,integer-divide-by-zero,null,bounds,unreachable,return",
        "-fno-sanitize-recover=all", "-fno-omit-frame-pointer"]
+# coverage mode (tools/coverage.py): HAWK_VERIF_COV=<dir> adds gcov instrumentation to the implementation build and
+# the harnesses; the build cache key differs (SAN is hashed), the checks behave as usual
+COV = os.environ.get("HAWK_VERIF_COV")
+if COV:
+    SAN = SAN + ["--coverage", "-fprofile-update=atomic"]
 CDEFS = ["-DHAVE_CONFIG_H", "-DHAWK_HAVE_CFG_H", "-DHAWK_ENABLE_STATIC_MODULE",
          "-DHAWK_BUILD_DEBUG", "-DHAWK_VERIF", "-fshort-wchar", "-w"]
 LIBS = ["-lm", "-ldl", "-lpthread", "-lquadmath", "-lffi"]
@@ -45,6 +50,17 @@ class Ctx:
         print("[%s %.1fs] %s" % (self.id, time.time() - self.t0, s), flush=True)
 
     def cleanup(self):
+        if COV:
+            # keep the counters of sources compiled into a harness (xma.c, tio.c, bin/hawk.c are #included by theirs)
+            dst = os.path.join(COV, "harness-" + self.id)
+            for root, _, files in os.walk(self.scratch):
+                for f in files:
+                    if f.endswith((".gcda", ".gcno")):
+                        os.makedirs(dst, exist_ok=True)
+                        try:
+                            shutil.copy(os.path.join(root, f), os.path.join(dst, f))
+                        except OSError:
+                            pass
         shutil.rmtree(self.scratch, ignore_errors=True)
 
     def problem(self, kind, what, replay_text, found_input, sig=None):
